@@ -23,6 +23,18 @@ def to_py(t):
     raise ValueError(f'not data: {t!r}')
 
 
+def make_vars(case):
+    """config.vars: plain python values, or - as Config.init() does for a config.yaml - whatever
+    ruamel's round-trip loader builds from yaml text (CommentedMap / CommentedSeq / CommentedSet)."""
+    if not case['vars']:
+        return {}
+    if case.get('vars_yaml'):
+        import ruamel.yaml
+        text = 'vars:\n' + ''.join(f'  {k}: {L.yflow(v)}\n' for k, v in case['vars'])
+        return ruamel.yaml.YAML().load(io.StringIO(text))['vars']
+    return {k: to_py(v) for k, v in case['vars']}
+
+
 def root_value(case, live, where):
     pname, j, key = where
     if pname == 'vars':
@@ -57,7 +69,7 @@ def run_case(case):
     loader_cache.clear_pipes()
     old_vars, old_shortcuts = config.vars, config.shortcuts
     dict_in = {k: to_py(v) for k, v in case['dict_in']}
-    config.vars = {k: to_py(v) for k, v in case['vars']}
+    config.vars = make_vars(case)
     config.shortcuts = {}
     if case.get('shortcut'):
         config.shortcuts = {'c12sc': {'pipeline_name': 'main', 'loader': 'vloader', 'args': copy.deepcopy(dict_in)}}
@@ -77,7 +89,7 @@ def run_case(case):
         S.PRISTINE.clear()
         for p in ('main', 'other'):
             S.PRISTINE[p] = S.canon(get_pipeline_yaml(io.StringIO(texts[p])))   # re-parse = pristine
-        S.PRISTINE['vars'] = S.canon({k: to_py(v) for k, v in case['vars']})
+        S.PRISTINE['vars'] = S.canon(make_vars(case))      # an independent re-build = pristine
         S.PRISTINE['shortcuts'] = S.canon(copy.deepcopy(config.shortcuts))
         loaded_ok = not S.changed()
         rts = L.roots(case)
